@@ -83,6 +83,10 @@ def one_case(case):
         kw = {}
         if image_mode == "custom":
             kw = {"docker_image": "my/image", "docker_tag": "v9"}
+        elif image_mode == "registry-port":
+            kw = {"docker_image": "localhost:5000/exp/analysis", "docker_tag": "1.2.3"}
+        elif image_mode == "tag-only":
+            kw = {"docker_tag": "v2"}
         # a private temp root per case (cases run in parallel and the default output directory is the temp dir)
         private_tmp = scratch / "tmp"
         private_tmp.mkdir()
@@ -183,7 +187,8 @@ def judge(case, o):
         probs.append(f"{len(o['calls'])} container runs instead of 1 ({o.get('exc_type')}: {o.get('exc_msg')} at {o.get('exc_stage')})")
         return probs
     c = o["calls"][0]
-    want_image = "meta/image:7" if md_pos != "none" else ("my/image:v9" if image_mode == "custom" else o["default_image"])
+    want_image = "meta/image:7" if md_pos != "none" else {"custom": "my/image:v9", "registry-port": "localhost:5000/exp/analysis:1.2.3",
+                                                          "tag-only": o["default_image"].rsplit(":", 1)[0] + ":v2"}.get(image_mode, o["default_image"])
     if c["image"] != want_image:
         probs.append(f"ran image {c['image']!r} instead of {want_image!r}")
     if c["command"] != ["/scripts/runner.sh"]:
@@ -249,11 +254,13 @@ def main(tier="quick"):
     cases = []
     for backend in BACKENDS:
         for shape in FILE_SHAPES:
-            for image_mode in ("default", "custom"):
+            for image_mode in ("default", "custom", "registry-port", "tag-only"):
                 for md_pos in ("none", "first", "middle", "last"):
                     for outdir_mode in ("default", "given"):
                         for beh in BEHAVIOURS:
                             for tinit in (True, False):
+                                if image_mode in ("registry-port", "tag-only") and (beh != ("ok", 1, None) or not tinit or outdir_mode != "default" or md_pos in ("first", "middle")):
+                                    continue      # unusual image names: crossed with file shapes and metadata presence only
                                 if tier == "quick":
                                     # the tempdir-state dimension only matters at construction; cross it with the rest on one behaviour
                                     if not tinit and beh != ("ok", 1, None):
